@@ -335,8 +335,9 @@ def run(chk):
                     terms = [(2 * (p_[i] * p_[i] - pur[i])) for i in range(nt)]
                     if dA == 2 and dB == 2:
                         det2 = [4 * _abs2(psi[i, 0, 0] * psi[i, 1, 1] - psi[i, 0, 1] * psi[i, 1, 0]) for i in range(nt)]
-                        chk.add(f'{cfg} A3b: each term 2(p_i^2 - Tr rho_i^2) == (2|det psi_i|)^2 = (p_i C(psi_i/sqrt p_i))^2', base + path.facts,
-                                ir.band_all(H.eq_sc(t_, d_) for t_, d_ in zip(terms, det2)), key='concurrence model: term is not the pure-state concurrence', replay=rp)
+                        for i_, (t_, d_) in enumerate(zip(terms, det2)):
+                            chk.add(f'{cfg} A3b: term {i_}: 2(p_i^2 - Tr rho_i^2) == (2|det psi_i|)^2 = (p_i C(psi_i/sqrt p_i))^2', base + path.facts,
+                                    H.eq_sc(t_, d_), key='concurrence model: term is not the pure-state concurrence', replay=rp)
                     what = 'sum_i sqrt(max(eps, 2(p_i^2 - Tr rho_i^2)))'
                 elif kind == 'linear_entropy':
                     eps = S.as_sc(float(torch.finfo(torch.float64).eps))
@@ -353,7 +354,7 @@ def run(chk):
                     what = '1 - sum_i |<conj(phi_i^A (x) phi_i^B) | psi_i>|^2'
                 hyps = matched_congruence(chk, path.ctx, n_code, [rho, V, U] + ([phiA, phiB] if kind == 'gme' else []) + ([rho0, V0] if reuse else []), f'{cfg} A3', f'{kind} model: loss is not the ensemble average', rp, base=base)
                 chk.add(f'{cfg} A3: loss == {what}', base + path.facts + hyps, claim, key=f'{kind} model: loss is not the ensemble average', replay=rp)
-                chk.add(f'{cfg} reach (path {pi})', base, ir.TRUE, kind='reach')
+                chk.add(f'{cfg} reach (path {pi})', base, ir.TRUE, kind='reach', meta={'soft_reach': True})
                 chk.add(f'{cfg} reach: the Stiefel constraint is satisfiable', stiefel, ir.TRUE, kind='reach')
                 chk.notes_from(path)
     # ---- (B) closed forms
